@@ -229,7 +229,7 @@ class Program:
             name = d.get("name", "")
             q = prefix
             if k in ("NamespaceDecl",):
-                q = (prefix + "::" if prefix else "") + name if name else prefix
+                q = (prefix + "::" if prefix else "") + (name if name else "(anonymous namespace)")
             elif k in ("CXXRecordDecl", "EnumDecl", "ClassTemplateSpecializationDecl"):
                 q = (prefix + "::" if prefix else "") + (name or "<anon>")
             elif k in FUNC_KINDS or k in ("FieldDecl", "VarDecl", "EnumConstantDecl", "TypeAliasDecl",
